@@ -59,11 +59,12 @@ def file_names(ps0: bool, ps1: bool) -> bool:
         names = {k: (a.name, a.curated) for k, a in named.items()}
         for tagkey, word in (("FalseDuplicate", "falseduplicates"), ("Contaminant", "contaminants")):
             if tagkey in outs:
-                hit = [v for k, v in names.items() if v[0] == "spec.1." + word]
-                ok = ok and len(hit) == 1 and hit[0][1] is False
-                # and its sequence is in that assembly only
-                a = [x for x in named.values() if x.name == "spec.1." + word][0]
-                ok = ok and all(sc.tag == tagkey for sc in a.scaffolds) and len(a.scaffolds) >= 1
+                hit = [x for x in named.values() if x.name == "spec.1." + word]
+                if len(hit) != 1:
+                    ok = False
+                    continue
+                # its own, non-curated file, holding exactly the scaffolds with that tag
+                ok = ok and hit[0].curated is False and all(sc.tag == tagkey for sc in hit[0].scaffolds) and len(hit[0].scaffolds) >= 1
         for k, a in named.items():
             if a.curated and a.name.endswith(".primary"):
                 ok = ok and all(sc.tag is None for sc in a.scaffolds)
